@@ -4,6 +4,7 @@ both are defined.  Both sides are tables regenerated from the source on every ru
 -/
 import DsdVerif.Gen.LegacyIupac
 import DsdVerif.Spec.Iupac
+import DsdVerif.Props.C20Legacy
 
 namespace Dsd.C20
 open Dsd.Iupac
